@@ -81,6 +81,16 @@ impl<const N: usize> FixedRingBuffer<N> {
         }
     }
 
+    /// Returns the front (oldest) element without removing it, or None if empty.
+    #[inline]
+    fn front(&self) -> Option<u8> {
+        if self.count == 0 {
+            None
+        } else {
+            Some(self.data[self.head])
+        }
+    }
+
     /// Returns an iterator over the elements from oldest to newest.
     fn iter(&self) -> FixedRingBufferIter<'_, N> {
         FixedRingBufferIter {
@@ -292,8 +302,10 @@ impl<R> RingReader<R> {
             if self.ring.len() == RING_BUFFER_SIZE {
                 let evicted = self.ring.pop_front();
                 self.ring_start_offset = self.ring_start_offset.saturating_add(1);
-                // Track newlines: if we evict a newline, increment the start line
-                if evicted == Some(b'\n') {
+                // Track line breaks: if we evict one, increment the start line. YAML also ends a
+                // line at a lone CR (one not followed by LF); a CRLF pair counts once, at the LF.
+                let lone_cr = evicted == Some(b'\r') && self.ring.front() != Some(b'\n');
+                if evicted == Some(b'\n') || lone_cr {
                     self.ring_start_line = self.ring_start_line.saturating_add(1);
                 }
             }
